@@ -108,3 +108,42 @@ Fixpoint contiguous (segs : list (Z * Z)) : bool :=
   | (s1, d1) :: (((s2, _) :: _) as r) => (s1 + d1 =? s2) && contiguous r
   | _ => true
   end.
+
+(* ---- manifest level: Manifest.validate_self and the cross-refresh check of DashValidator.validate *)
+Record mfacts := {
+  m_live : bool;                     (* the mode the validator was started in *)
+  m_dynamic : bool;                  (* MPD@type = "dynamic" *)
+  m_periods : Z;
+  m_has_minbuf : bool; m_has_ast : bool; m_has_tsbd : bool; m_has_mup : bool;
+  m_mpd : option Z;                  (* mediaPresentationDuration, microseconds *)
+  m_period_durations : bool;         (* every Period has @duration *)
+  m_patches : Z;
+  m_prev_ast : option Z; m_ast : option Z      (* availabilityStartTime of the previous / this manifest (refresh) *)
+}.
+Inductive mkind := MNoPeriod | MMinBuf | MType | MAst | MTsbd | MMpdInLive | MMpdInvalid | MPeriodDur | MMupInVod | MAstInVod | MPatchInVod
+                 | MAstChanged.
+
+Definition manifest_errors (f : mfacts) : list mkind :=
+  (if 0 <? m_periods f then [] else [MNoPeriod]) ++
+  (if m_has_minbuf f then [] else [MMinBuf]) ++
+  (if m_live f then
+     (if m_dynamic f then [] else [MType]) ++ (if m_has_ast f then [] else [MAst]) ++ (if m_has_tsbd f then [] else [MTsbd]) ++
+     (match m_mpd f with Some _ => [MMpdInLive] | None => [] end)
+   else
+     (if m_dynamic f then [MType] else []) ++
+     (match m_mpd f with Some d => if 0 <? d then [] else [MMpdInvalid] | None => if m_period_durations f then [] else [MPeriodDur] end) ++
+     (if m_has_mup f then [MMupInVod] else []) ++ (if m_has_ast f then [MAstInVod] else []) ++
+     (if 0 <? m_patches f then [MPatchInVod] else [])) ++
+  (if m_live f then match m_prev_ast f, m_ast f with
+                    | Some a, Some b => if a =? b then [] else [MAstChanged]
+                    | Some _, None => [MAstChanged]
+                    | _, _ => []
+                    end else []).
+
+(* what the server's manifests look like, on the same facts *)
+Definition server_manifest (f : mfacts) : Prop :=
+  0 < m_periods f /\ m_has_minbuf f = true /\
+  (m_live f = true -> m_dynamic f = true /\ m_has_ast f = true /\ m_has_tsbd f = true /\ m_mpd f = None /\
+                      (forall a, m_prev_ast f = Some a -> m_ast f = Some a)) /\
+  (m_live f = false -> m_dynamic f = false /\ (exists d, m_mpd f = Some d /\ 0 < d) /\ m_has_mup f = false /\ m_has_ast f = false /\
+                       m_patches f = 0).
